@@ -71,8 +71,31 @@ Fixpoint reach (pol : policy) (funs : funtab) (fuel : nat) (todo seen : list str
 Definition reachable_funs (pol : policy) (funs : funtab) (entries : list string) : funtab :=
   restrict (reach pol funs 2000 entries []) funs.
 
+(** Which accesses and calls of a skeleton the policy does not know (each makes the check
+    fail): used to explain a failing obligation. *)
+Fixpoint unknowns (pol : policy) (s : stmt) : list string :=
+  match s with
+  | Acc loc _ => match guard_of pol loc with Some _ => [] | None => ["access to " ++ loc] end
+  | Call loc m => match effect_of pol loc m with Some _ => [] | None => ["call " ++ loc ++ "." ++ m] end
+  | Seq a b | Branch a b => unknowns pol a ++ unknowns pol b
+  | Loop a => unknowns pol a
+  | Unsupported w => ["unsupported: " ++ w]
+  | _ => []
+  end.
+
+Definition diagnose (pol : policy) (funs : funtab) (entries : list string) : list string :=
+  flat_map (fun p => map (fun u => fst p ++ ": " ++ u) (unknowns pol (snd p))) (reachable_funs pol funs entries).
+
+(** Package-level variables (the translator writes them global.<name>): the ones below are
+    initialised once and only read afterwards. Any other package-level variable touched by an
+    analysed function is unknown to the policies, so the obligation fails: no mutex of one
+    object can guard state shared by all objects. *)
+Definition global_guards : list (string * guard) :=
+  [ ("global.keySchema", Immutable); ("global.keyNextRowID", Immutable); ("global.keyPrefixValue", Immutable);
+    ("global.lruCacheItemSize", Immutable); ("global.listElementSize", Immutable) ].
+
 (** * C04: queries, schema reads and the LRU cache used concurrently on one open index *)
-Definition policy_C04 : policy := mk_policy
+Definition policy_C04 : policy := mk_policy (global_guards ++
   [ (* an Index is immutable after OpenIndex *)
     ("Index.metrics", Immutable); ("Index.schema", Immutable); ("Index.nextRowID", Immutable);
     ("Index.values", Immutable); ("Index.cache", Immutable);
@@ -85,7 +108,7 @@ Definition policy_C04 : policy := mk_policy
     (* a Query value belongs to the goroutine that executes it; expression trees are read-only *)
     ("Query.GroupBy", Unshared); ("Query.groupByFields", Unshared); ("Query.Expr", Unshared);
     ("ExprEqual.Column", Immutable); ("ExprEqual.Value", Immutable); ("ExprNot.Expr", Immutable);
-    ("ExprAnd.Exprs", Immutable); ("ExprOr.Exprs", Immutable) ]
+    ("ExprAnd.Exprs", Immutable); ("ExprOr.Exprs", Immutable) ])
   [ ("Index.cache", "Get", ECall "Cache.Get"); ("Index.cache", "Put", ECall "Cache.Put");
     ("Index.values", "GetCol", ECall "colGetter.GetCol"); ("Index.values", "GetCardinality", ERead);
     ("Query.Expr", "eval", ECall "Expression.eval"); ("Query.Expr", "GetCardinality", ERead);
@@ -108,17 +131,17 @@ Definition funs_C04 : list string :=
    "Cache.Get"; "Cache.Put"; "colGetter.GetCol"; "Expression.eval"; "Expression.cacheKey"].
 
 (** * C18: AddRow called concurrently on one writer *)
-Definition policy_C18_mem : policy := mk_policy
+Definition policy_C18_mem : policy := mk_policy (global_guards ++
   [ ("IndexWriter.nextRowID", GuardedBy "IndexWriter.mtx"); ("IndexWriter.schema", GuardedBy "IndexWriter.mtx");
     ("IndexWriter.values", GuardedBy "IndexWriter.mtx"); ("IndexWriter.getValueBitmap()", GuardedBy "IndexWriter.mtx");
-    ("schema.Columns", GuardedBy "IndexWriter.mtx") ]
+    ("schema.Columns", GuardedBy "IndexWriter.mtx") ])
   [ ("IndexWriter.schema", "add", ECall "schema.add"); ("IndexWriter.getValueBitmap()", "Add", EWrite) ].
 
-Definition policy_C18_big : policy := mk_policy
+Definition policy_C18_big : policy := mk_policy (global_guards ++
   [ ("BigIndexWriter.nextRowID", GuardedBy "BigIndexWriter.mtx"); ("BigIndexWriter.schema", GuardedBy "BigIndexWriter.mtx");
     ("BigIndexWriter.tempTx", GuardedBy "BigIndexWriter.mtx"); ("BigIndexWriter.tempDB", GuardedBy "BigIndexWriter.mtx");
     ("BigIndexWriter.db", Immutable);
-    ("schema.Columns", GuardedBy "BigIndexWriter.mtx") ]
+    ("schema.Columns", GuardedBy "BigIndexWriter.mtx") ])
   [ ("BigIndexWriter.schema", "add", ECall "schema.add");
     ("BigIndexWriter.tempTx", "Bucket", ERead); ("BigIndexWriter.tempTx", "Put", EWrite);
     ("BigIndexWriter.tempTx", "Commit", EWrite); ("BigIndexWriter.tempDB", "Begin", ERead) ].
@@ -127,10 +150,10 @@ Definition funs_C18_mem : list string := ["IndexWriter.AddRow"; "IndexWriter.get
 Definition funs_C18_big : list string := ["BigIndexWriter.AddRow"; "schema.add"].
 
 (** * C17: the driver's connection cache *)
-Definition policy_C17 : policy := mk_policy
+Definition policy_C17 : policy := mk_policy (global_guards ++
   [ ("updogDriver.fileConnCache", GuardedBy "updogDriver.fileConnMtx");
     ("fileConn.idx", GuardedBy "updogDriver.fileConnMtx"); ("fileConn.refs", GuardedBy "updogDriver.fileConnMtx");
-    ("fileConn.key", Immutable); ("fileConn.d", Immutable) ]
+    ("fileConn.key", Immutable); ("fileConn.d", Immutable) ])
   [ ("fileConn.d", "release", ECall "updogDriver.release");
     ("fileConn.idx", "Close", EWrite); ("updogDriver.fileConnCache", "Close", EWrite);
     ("fileConn.refs", "Add", EWrite); ("fileConn.refs", "Load", ERead);
